@@ -141,11 +141,12 @@ def build(scratch, targets=("world",), verbose=False):
     json.dump({"Replace": overlay}, open(ov, "w"), indent=1)
     bins = {}
     os.makedirs(os.path.join(scratch, "bin"), exist_ok=True)
-    pkgs = {"world": "./zzverif", "nsq_to_file": "./apps/nsq_to_file", "to_nsq": "./apps/to_nsq",
+    pkgs = {"world": "./zzverif", "world_race": "./zzverif", "nsq_to_file": "./apps/nsq_to_file", "to_nsq": "./apps/to_nsq",
             "nsq_to_nsq": "./apps/nsq_to_nsq", "nsq_to_http": "./apps/nsq_to_http"}
     for t in targets:
         outp = os.path.join(scratch, "bin", t + ".test")
-        run([GO, "test", "-c", "-vet=off", "-modfile=" + modfile, "-overlay=" + ov, "-o", outp, pkgs[t]],
+        flags = ["-race"] if t.endswith("_race") else []
+        run([GO, "test", "-c", "-vet=off"] + flags + ["-modfile=" + modfile, "-overlay=" + ov, "-o", outp, pkgs[t]],
             cwd=REPO, what="go test -c " + t)
         bins[t] = outp
     return bins
